@@ -116,6 +116,17 @@ func c17Sequential(c *vk.Ctx) {
 				}
 			}
 		}
+		// scoped (zoned) link-local clients, as the kernel reports them for fe80::/10 peers
+		zoneOf := map[string]string{}
+		if h%3 == 0 {
+			ips[0] = net.ParseIP(fmt.Sprintf("fe80::%x:%x", 1+r.Intn(0xffff), 1+r.Intn(0xffff)))
+		}
+		for _, ip := range ips {
+			if ip.To4() == nil && ipClass(ip) == "link-local" && (h%3 == 0 || r.Intn(2) == 0) {
+				zoneOf[ip.String()] = pick(r, []string{"eth0", "vlab1", "2"})
+				c.Count("zoned_clients", 1)
+			}
+		}
 		keys := make([]string, nKey)
 		for i := range keys {
 			keys[i] = fmt.Sprintf("key-%d", i)
@@ -182,7 +193,7 @@ func c17Sequential(c *vk.Ctx) {
 			switch x := r.Intn(20); {
 			case x < 5: // open authenticated TCP
 				ip, key := ips[r.Intn(nIP)], keys[r.Intn(nKey)]
-				conn := &fakeNetConn{remote: &net.TCPAddr{IP: ip, Port: 1024 + r.Intn(60000)}, local: &net.TCPAddr{IP: net.IPv4(203, 0, 113, 10), Port: 9000}}
+				conn := &fakeNetConn{remote: &net.TCPAddr{IP: ip, Port: 1024 + r.Intn(60000), Zone: zoneOf[ip.String()]}, local: &net.TCPAddr{IP: net.IPv4(203, 0, 113, 10), Port: 9000}}
 				m := sm.AddOpenTCPConnection(conn)
 				t := &c17Tunnel{kind: "tcp", ip: ip.String(), key: key, tcp: m}
 				if r.Intn(5) > 0 {
@@ -200,7 +211,7 @@ func c17Sequential(c *vk.Ctx) {
 				trace = append(trace, fmt.Sprintf("%v open %s %s %s", now, t.kind, t.ip, key))
 			case x < 8: // add UDP association
 				ip, key := ips[r.Intn(nIP)], keys[r.Intn(nKey)]
-				m := sm.AddUDPNatEntry(&net.UDPAddr{IP: ip, Port: 1024 + r.Intn(60000)}, key)
+				m := sm.AddUDPNatEntry(&net.UDPAddr{IP: ip, Port: 1024 + r.Intn(60000), Zone: zoneOf[ip.String()]}, key)
 				t := &c17Tunnel{kind: "udp", ip: ip.String(), key: key, udp: m, authed: true}
 				acc.open(ipKey{t.ip, key}, now)
 				if acc.active[ipKey{t.ip, key}] > 1 {
@@ -516,6 +527,7 @@ func init() {
 			c.Require("concurrent_rounds")
 			c.Require("e2e_scrapes_checked")
 			c.Require("simultaneous_first_open_rounds")
+			c.Require("zoned_clients")
 			c17Sequential(c)
 			c17Concurrent(c)
 			if !c17SimultaneousFirstOpens(c) {
